@@ -19,12 +19,61 @@ pub struct Case {
 
 pub fn check(c: &Case, ctx: &mut Ctx) -> Result<(), Failure> {
     let k = c.cfg.kind;
+    let hfail = || Failure { signature: "C09:harness".into(), detail: "HARNESS build".into() };
+    let mut ind = Ind::build(k, &c.cfg.params()).map_err(|_| hfail())?;
+    let mut maxi = if k == Kind::Min { Some(Ind::build(Kind::Max, &Params::one(c.cfg.n())).map_err(|_| hfail())?) } else { None };
+    check_on(c, ctx, &mut ind, &mut maxi)
+}
+
+/// a case with reset() calls: `resets[j]` = number of inputs fed before the j-th reset. Each stretch between
+/// resets is judged as a stream of its own (t counts inputs since the reset, as the property defines it) on the
+/// *same* instance.
+#[derive(Clone, Debug, Serialize, Deserialize)]
+pub struct RCase {
+    pub case: Case,
+    pub resets: Vec<usize>,
+}
+
+pub fn check_resets(r: &RCase, ctx: &mut Ctx) -> Result<(), Failure> {
+    let c = &r.case;
+    let mut ind = Ind::build(c.cfg.kind, &c.cfg.params()).map_err(|_| Failure { signature: "C09:harness".into(), detail: "HARNESS build".into() })?;
+    let mut maxi = if c.cfg.kind == Kind::Min { Some(Ind::build(Kind::Max, &Params::one(c.cfg.n())).map_err(|_| Failure { signature: "C09:harness".into(), detail: "HARNESS build".into() })?) } else { None };
+    let len = if c.scalar { c.xs.len() } else { c.bars.len() };
+    let mut cuts: Vec<usize> = r.resets.iter().copied().filter(|&x| x > 0 && x < len).collect();
+    cuts.sort_unstable();
+    cuts.dedup();
+    cuts.push(len);
+    let mut a = 0usize;
+    for (j, &b) in cuts.iter().enumerate() {
+        if j > 0 {
+            ind.reset();
+            if let Some(m) = maxi.as_mut() {
+                m.reset();
+            }
+            ctx.label("segments_after_reset");
+        }
+        let mut seg = c.clone();
+        if c.scalar {
+            seg.xs = c.xs[a..b].to_vec();
+        } else {
+            seg.bars = c.bars[a..b].to_vec();
+        }
+        // only the last stretch (always one after a reset) is counted, so that a case counts once
+        let was = ctx.counting;
+        ctx.counting = was && j + 1 == cuts.len();
+        let res = check_on(&seg, ctx, &mut ind, &mut maxi);
+        ctx.counting = was;
+        res?;
+        a = b;
+    }
+    Ok(())
+}
+
+pub fn check_on(c: &Case, ctx: &mut Ctx, ind: &mut Ind, maxi: &mut Option<Ind>) -> Result<(), Failure> {
+    let k = c.cfg.kind;
     let name = if k == Kind::Min { "MIN_MAX" } else { k.name() };
     let p = c.cfg.params();
     let n = c.cfg.n();
-    let hfail = || Failure { signature: "C09:harness".into(), detail: "HARNESS build".into() };
-    let mut ind = Ind::build(k, &p).map_err(|_| hfail())?;
-    let mut maxi = if k == Kind::Min { Some(Ind::build(Kind::Max, &Params::one(n)).map_err(|_| hfail())?) } else { None };
     let len = if c.scalar { c.xs.len() } else { c.bars.len() };
     let mut fp = Fp::new("C09");
     c.cfg.fp(&mut fp);
@@ -192,10 +241,22 @@ fn cancel_stream(lo: usize, hi: usize) -> BoxedStrategy<Vec<f64>> {
     .boxed()
 }
 
+fn reset_strategy() -> BoxedStrategy<RCase> {
+    (strategy_cap(10, 200, 40), proptest::collection::vec(any::<u16>(), 1..4))
+        .prop_map(|(case, pk)| {
+            let len = if case.scalar { case.xs.len() } else { case.bars.len() };
+            let resets = crate::hist::reset_positions(case.cfg.n(), len, &pk);
+            RCase { case, resets }
+        })
+        .boxed()
+}
 fn strategy(lo: usize, hi: usize) -> BoxedStrategy<Case> {
+    strategy_cap(lo, hi, 512)
+}
+fn strategy_cap(lo: usize, hi: usize, cap: usize) -> BoxedStrategy<Case> {
     prop_oneof![
-        3 => cfg_among(&SK, 512, multiplier_nonneg).prop_flat_map(move |cfg| { let h2 = hi.max(3 * cfg.n() + 40); (Just(cfg), cancel_stream(lo, h2)) }).prop_map(|(cfg, v)| Case { cfg, scalar: true, xs: xs(&v), bars: vec![] }),
-        1 => cfg_among(&BK, 512, multiplier_nonneg).prop_flat_map(move |cfg| { let h2 = hi.max(3 * cfg.n() + 40); (Just(cfg), cancel_stream(lo, h2), cancel_stream(lo, h2), cancel_stream(lo, h2)) }).prop_map(|(cfg, a, b, cc)| {
+        3 => cfg_among(&SK, cap, multiplier_nonneg).prop_flat_map(move |cfg| { let h2 = hi.max(3 * cfg.n() + 40); (Just(cfg), cancel_stream(lo, h2)) }).prop_map(|(cfg, v)| Case { cfg, scalar: true, xs: xs(&v), bars: vec![] }),
+        1 => cfg_among(&BK, cap, multiplier_nonneg).prop_flat_map(move |cfg| { let h2 = hi.max(3 * cfg.n() + 40); (Just(cfg), cancel_stream(lo, h2), cancel_stream(lo, h2), cancel_stream(lo, h2)) }).prop_map(|(cfg, a, b, cc)| {
             let len = a.len().min(b.len()).min(cc.len());
             let bars = (0..len).map(|i| RawBar { o: a[i], h: a[i].max(b[i]), l: a[i].min(b[i]), c: cc[i], v: 1.0 }).collect();
             Case { cfg, scalar: false, xs: vec![], bars }
@@ -221,6 +282,9 @@ pub fn run(g: &mut Global) {
         &check,
     );
     g.random("random", g.tier.pick(60000, 3000000), &|| strategy(1, 300), &check);
+    // the same relations after reset() on the same instance(s): resets at multiples of the period, next to them,
+    // anywhere, and a second reset before the window refilled
+    g.random("resets", g.tier.pick(30000, 300000), &reset_strategy, &check_resets);
     if g.tier == Tier::Thorough {
         g.random("long", 800, &|| strategy(3000, 8000), &check);
     }
